@@ -252,12 +252,12 @@ func genC07(r *Rng, tier string, idx int, args map[string]string) []string {
 		dbWords = []string{"list"}
 	}
 	queries := []string{
-		Pick(r, dbWords),                        // exact word
-		dropLetters(r, Pick(r, dbWords)),        // misspelling that stays a subsequence
-		misspell(r, Pick(r, dbWords)),           // misspelling (swap / doubling: usually no subsequence)
-		fragment(r, Pick(r, dbWords)),           // fragment
+		Pick(r, dbWords),                 // exact word
+		dropLetters(r, Pick(r, dbWords)), // misspelling that stays a subsequence
+		misspell(r, Pick(r, dbWords)),    // misspelling (swap / doubling: usually no subsequence)
+		fragment(r, Pick(r, dbWords)),    // fragment
 		Pick(r, []string{"l", "x", "s", "é", "K", "-", "|", "..", "&&", "?", " ", "", "a b", "\x00", "I"}), // one letter / punctuation only
-		"  " + strings.ToUpper(dropLetters(r, Pick(r, dbWords))) + " ", // re-cased, padded
+		"  " + strings.ToUpper(dropLetters(r, Pick(r, dbWords))) + " ",                                     // re-cased, padded
 	}
 	if r.Chance(1, 2) {
 		queries = append(queries, genQuery(r, dbWords))
